@@ -119,7 +119,7 @@ func c11Gen(r *vRand, idx int) *c11Grammar {
 	if idx%3 == 0 {
 		g.nsc = 2
 	}
-	withClass := !g.m.fold && idx%4 != 2
+	withClass := !g.m.fold && idx%4 != 2 && idx%11 != 5
 	allSC := []int{0}
 	if g.nsc == 2 {
 		allSC = []int{0, 1}
@@ -182,6 +182,33 @@ func c11Gen(r *vRand, idx int) *c11Grammar {
 		}
 		add(fmt.Sprintf("TOK%d", k), nd, prec, scs, r.Intn(6) == 0, sw)
 	}
+	if !withClass && idx%11 == 5 {
+		// a family aimed at backtracking next to an explicit invalid_token rule: NUM: x+, LONG: x+ y z+,
+		// invalid_token: x+ y  (after "x.. y" the lexer has passed the end of NUM; LONG may still fail)
+		sym := func(c rune) *lgNode {
+			return &lgNode{kind: lgSet, spelling: string(c), cls: lgClass{items: [][2]rune{{c, c}}}}
+		}
+		plus := func(n *lgNode) *lgNode { return &lgNode{kind: lgRep, min: 1, max: -1, sub: []*lgNode{n}} }
+		x, y, z := 'a', 'b', '0'
+		if idx%2 == 0 {
+			x, y, z = '0', 'a', 'b'
+		}
+		g.rules, g.names, g.space, g.switchTo = g.rules[:1], g.names[:1], g.space[:1], g.switchTo[:1]
+		add("NUM", plus(sym(x)), 1, allSC, false, -1)
+		add("LONG", &lgNode{kind: lgCat, sub: []*lgNode{plus(sym(x)), sym(y), plus(sym(z))}}, 2, allSC, false, -1)
+		add("invalid_token", &lgNode{kind: lgCat, sub: []*lgNode{plus(sym(x)), sym(y)}}, 3, allSC, false, -1)
+		add("OTHER", plus(sym('_')), 4, allSC, false, -1)
+	}
+	// sometimes the grammar gives invalid_token a pattern of its own: an ordinary rule that reports
+	// INVALID_TOKEN over its match (such grammars must not be compiled in the inlined form)
+	explicitInvalid := -1
+	if !withClass && idx%3 == 1 && idx%11 != 5 {
+		nd := lgRandNode(r, 2, g.m, g.universe)
+		if c11Nullable(nd) {
+			nd = &lgNode{kind: lgCat, sub: []*lgNode{nd, lgRandSet(r, g.m, g.universe)}}
+		}
+		explicitInvalid = add("invalid_token", nd, nr+2, allSC, false, -1)
+	}
 	g.inline = true
 	var sb strings.Builder
 	fmt.Fprintf(&sb, "language lex%d(go);\n\nlang = \"lex%d\"\npackage = \"vmod/lex%d\"\neventBased = true\ngenParser = false\ntokenLine = true\ntokenColumn = true\n", idx, idx, idx)
@@ -197,7 +224,10 @@ func c11Gen(r *vRand, idx int) *c11Grammar {
 	}
 	scName := []string{"initial", "other"}
 	stName := []string{"StateInitial", "StateOther"}
-	sb.WriteString("invalid_token:\nerror:\n\n")
+	if explicitInvalid < 0 && !(!withClass && idx%11 == 5) {
+		sb.WriteString("invalid_token:\n")
+	}
+	sb.WriteString("error:\n\n")
 	for i, ru := range g.rules {
 		if g.nsc == 2 {
 			var ns []string
@@ -277,6 +307,9 @@ func c11Spec(g *c11Grammar, text []rune) []c11Tok {
 		}
 		ri := act - 1
 		name := g.names[ri]
+		if name == "invalid_token" {
+			name = "INVALID_TOKEN"
+		}
 		if ri == g.classRule {
 			if kw, ok := g.kw[string(rest[:size])]; ok {
 				name = kw
@@ -419,7 +452,7 @@ func TestVerifC11(t *testing.T) {
 		fmt.Fprintf(&runners, c11Runner, g.idx)
 		// token names through the generated constants (String() shows the text of constant patterns)
 		fmt.Fprintf(&runners, "var names%[1]d = map[tok%[1]d.Type]string{tok%[1]d.EOI: \"EOI\", tok%[1]d.INVALID_TOKEN: \"INVALID_TOKEN\", tok%[1]d.ERROR: \"ERROR\"", g.idx)
-		seen := map[string]bool{}
+		seen := map[string]bool{"invalid_token": true} // an explicit invalid_token rule uses the predeclared constant
 		for _, n := range g.names {
 			if !seen[n] {
 				seen[n] = true
